@@ -231,6 +231,75 @@ fn o4_write_on_readonly_handle_of_lower_file() {
     assert!(r.is_err(), "write on a read-only lower handle returned {:?}", r);
 }
 
+// O4b (C10): the same, observed at the lower LAYER object: a recording wrapper around the passthrough layer counts the write() calls it
+// receives.  A lower layer must never be asked to write.
+mod rec {
+    use super::*;
+    use fuse_backend_rs::abi::fuse_abi::{stat64, statvfs64};
+    use fuse_backend_rs::api::filesystem::{DirEntry, Entry, FsOptions, GetxattrReply, ListxattrReply, OpenOptions, ZeroCopyReader, ZeroCopyWriter};
+    use std::ffi::CStr;
+    use std::io;
+    use std::sync::atomic::{AtomicUsize, Ordering};
+    use std::time::Duration;
+
+    pub struct Rec {
+        pub inner: PassthroughFs<()>,
+        pub writes: Arc<AtomicUsize>,
+    }
+    impl FileSystem for Rec {
+        type Inode = u64;
+        type Handle = u64;
+        fn init(&self, c: FsOptions) -> io::Result<FsOptions> { self.inner.init(c) }
+        fn lookup(&self, ctx: &Context, p: u64, n: &CStr) -> io::Result<Entry> { self.inner.lookup(ctx, p, n) }
+        fn forget(&self, ctx: &Context, i: u64, c: u64) { self.inner.forget(ctx, i, c) }
+        fn getattr(&self, ctx: &Context, i: u64, h: Option<u64>) -> io::Result<(stat64, Duration)> { self.inner.getattr(ctx, i, h) }
+        fn open(&self, ctx: &Context, i: u64, f: u32, ff: u32) -> io::Result<(Option<u64>, OpenOptions, Option<u32>)> { self.inner.open(ctx, i, f, ff) }
+        fn release(&self, ctx: &Context, i: u64, f: u32, h: u64, fl: bool, fr: bool, lo: Option<u64>) -> io::Result<()> { self.inner.release(ctx, i, f, h, fl, fr, lo) }
+        fn read(&self, ctx: &Context, i: u64, h: u64, w: &mut dyn ZeroCopyWriter, s: u32, o: u64, lo: Option<u64>, f: u32) -> io::Result<usize> { self.inner.read(ctx, i, h, w, s, o, lo, f) }
+        fn write(&self, ctx: &Context, i: u64, h: u64, r: &mut dyn ZeroCopyReader, s: u32, o: u64, lo: Option<u64>, dw: bool, f: u32, ff: u32) -> io::Result<usize> {
+            self.writes.fetch_add(1, Ordering::SeqCst);
+            self.inner.write(ctx, i, h, r, s, o, lo, dw, f, ff)
+        }
+        fn opendir(&self, ctx: &Context, i: u64, f: u32) -> io::Result<(Option<u64>, OpenOptions)> { self.inner.opendir(ctx, i, f) }
+        fn readdir(&self, ctx: &Context, i: u64, h: u64, s: u32, o: u64, add: &mut dyn FnMut(DirEntry) -> io::Result<usize>) -> io::Result<()> { self.inner.readdir(ctx, i, h, s, o, add) }
+        fn releasedir(&self, ctx: &Context, i: u64, f: u32, h: u64) -> io::Result<()> { self.inner.releasedir(ctx, i, f, h) }
+        fn getxattr(&self, ctx: &Context, i: u64, n: &CStr, s: u32) -> io::Result<GetxattrReply> { self.inner.getxattr(ctx, i, n, s) }
+        fn listxattr(&self, ctx: &Context, i: u64, s: u32) -> io::Result<ListxattrReply> { self.inner.listxattr(ctx, i, s) }
+        fn readlink(&self, ctx: &Context, i: u64) -> io::Result<Vec<u8>> { self.inner.readlink(ctx, i) }
+        fn statfs(&self, ctx: &Context, i: u64) -> io::Result<statvfs64> { self.inner.statfs(ctx, i) }
+    }
+    impl Layer for Rec {
+        fn root_inode(&self) -> u64 { 1 }
+    }
+}
+
+#[test]
+fn o4b_lower_layer_is_never_asked_to_write() {
+    use std::sync::atomic::{AtomicUsize, Ordering};
+    let (up, low) = (TempDir::new().unwrap(), TempDir::new().unwrap());
+    fs::write(low.as_path().join("r"), b"0123456789").unwrap();
+    let writes = Arc::new(AtomicUsize::new(0));
+    let mut config = passthrough::Config::default();
+    config.root_dir = low.as_path().to_string_lossy().to_string();
+    config.xattr = true;
+    config.do_import = true;
+    let inner = PassthroughFs::<()>::new(config).unwrap();
+    inner.import().unwrap();
+    let lower: Arc<BoxedLayer> = Arc::new(Box::new(rec::Rec { inner, writes: writes.clone() }) as BoxedLayer);
+    let mut oc = Config::default();
+    oc.do_import = true;
+    let fs = OverlayFs::new(Some(layer(up.as_path())), vec![lower], oc).unwrap();
+    fs.import().unwrap();
+    let ctx = Context::default();
+    let ino = visible(&fs, ROOT_ID, "r").unwrap();
+    let (h, _, _) = fs.open(&ctx, ino, libc::O_RDONLY as u32, 0).unwrap();
+    let mut buf = TempFile::new().unwrap().into_file();
+    buf.write_all(b"abcd").unwrap();
+    buf.seek(SeekFrom::Start(0)).unwrap();
+    let _ = fs.write(&ctx, ino, h.unwrap(), &mut buf, 4, 0, None, false, libc::O_RDONLY as u32, 0);
+    assert_eq!(writes.load(Ordering::SeqCst), 0, "the overlay passed a WRITE to a lower layer");
+}
+
 // O5 (C10): without an upper layer every modifying operation fails and changes nothing.
 #[test]
 fn o5_no_upper_layer_everything_fails() {
